@@ -1,8 +1,28 @@
 import Driver.GraphJson
 import SynKitModel.CrnCanon
+import SynKitModel.CrnIR
 /-! Driver commands of C18 (`crn.*`).
 
 Net:  {"labels": ["A", …], "rxns": [{"id": "r_1", "rule": "r", "r": [[species index, coeff], …], "p": […]}, …]}
+
+IR search (`SynKitModel/CrnIR.lean`, mirror of `CRNCanonicalizer._search`):
+* `crn.ir {graph, node_keys, edge_keys, leaves?}` → every stage of `_canon`:
+  `wfd`, `attr_ok` (`CrnAttrOK`), `defined` (false where the code raises `StopIteration`: empty graph and
+  no node keys), `initial` (`_init_part`), `refined` (`_refine` of it), `order` (`canonical_perm`, `[]`
+  when undefined), `label` (`best["label"]` structured, `null` when undefined), `perms`
+  (`sample_permutations`, in visiting order), `count` (`automorphism_count`), `orbits_raw`
+  (`_orbits_from_perms(perms)` as the merging leaves it), `orbits` (the same as a sorted partition),
+  `graph` (`canon_graph` = `nx.relabel_nodes(G, {v: i + 1})`), and with `"leaves": true` also `n_leaves`
+  and `leaves`: every leaf `{prefix, order, label}` of the search tree in visiting order.
+  A label is `{"nodes": [[Val…] per node of the permutation], "rows": [[null | [Val…], …] per node]}`:
+  `nodes[i]` are the values `G.nodes[perm[i]].get(a, "")` for the node keys, `rows[i]` lists the ordered
+  pairs `(i, j)`, `j ≠ i`, in increasing `j` (the code's loop order, diagonal skipped): `null` for
+  `"0:…"`, the values `attrs.get(a, "")` of the edge keys for `"1:…"`.
+  Node ids must be interned order-preservingly (`sorted(G.nodes())` ↦ `0, 1, …`) for cells, leaf
+  order and `perms` to correspond item by item; partitions / labels correspond under any interning.
+* `crn.ir_refine {graph, node_keys, edge_keys, partition}` → `_refine(G, partition)`
+* `crn.ir_sig {graph, node_keys, edge_keys, partition, node}` → `_sig` as `{attrs, in, out, counts, edges}`
+* `crn.ir_label {graph, node_keys, edge_keys, perm}` → `_label(G, perm)` structured as above
 -/
 open Lean SynKit SynKit.CrnCanon
 namespace Driver.CrnCanon
@@ -40,8 +60,71 @@ def natList (j : Json) (k : String) : Except String (List Nat) := do
   let arr ← Driver.getArr j k
   arr.toList.mapM fun x => (fromJson? x : Except String Nat)
 
+def valsJson (xs : List Val) : Json := Json.arr (xs.map Driver.valToJson).toArray
+
+def partJson (P : List (List Nat)) : Json := Json.arr (P.map fun c => (toJson c)).toArray
+
+/-- structured label; the diagonal placeholders are dropped so that `rows[i]` is the code's loop over `j ≠ i` -/
+def labelJson (l : CrnLabel) : Json :=
+  Json.mkObj [
+    ("nodes", Json.arr (l.nodes.map valsJson).toArray),
+    ("rows", Json.arr (l.rows.map fun r => Json.arr (r.filterMap fun b =>
+      match b with
+      | .diag => none
+      | .absent => some Json.null
+      | .present x => some (valsJson x)).toArray).toArray)]
+
+def partitionOfJson (j : Json) (k : String) : Except String (List (List Nat)) := do
+  let arr ← Driver.getArr j k
+  arr.toList.mapM fun x => (fromJson? x : Except String (List Nat))
+
+/-- Answer of `crn.ir`. -/
+def irJson (sel : SelD) (g : LGraph) (withLeaves : Bool) : Json :=
+  let p0 := crnInitPart sel g
+  let res := crnIr sel g
+  let o := crnOrderOf res
+  let perms := crnPermsOf res
+  let orbs := crnOrbitsFromPerms perms
+  Json.mkObj ([
+    ("wfd", toJson (decide (WFD g))),
+    ("attr_ok", toJson (decide (CrnAttrOK sel g))),
+    ("defined", toJson (decide (CrnDefined sel g))),
+    ("initial", partJson p0),
+    ("refined", partJson (crnRefine sel g p0)),
+    ("order", toJson o),
+    ("label", match res with | none => Json.null | some b => labelJson b.label),
+    ("perms", partJson perms),
+    ("count", toJson perms.length),
+    ("orbits_raw", partJson orbs),
+    ("orbits", partitionToJson orbs),
+    ("graph", Driver.graphToJson (canonBy g o))] ++
+    (if withLeaves then
+      let leaves := crnRootLeaves sel g
+      [("n_leaves", toJson leaves.length), ("leaves", Json.arr (leaves.map fun l =>
+        Json.mkObj [("prefix", toJson l.1), ("order", toJson l.2), ("label", labelJson (crnLeafLabel sel g l))]).toArray)]
+    else []))
+
 def handle : Driver.Handler := fun cmd j =>
   match cmd with
+  | "crn.ir" => some do
+    let sel ← selOfJson j
+    let g ← Driver.getGraph j "graph"
+    let wl := match j.getObjValAs? Bool "leaves" with | .ok b => b | .error _ => false
+    pure (irJson sel g wl)
+  | "crn.ir_refine" => some do
+    let sel ← selOfJson j
+    let g ← Driver.getGraph j "graph"
+    pure (partJson (crnRefine sel g (← partitionOfJson j "partition")))
+  | "crn.ir_sig" => some do
+    let sel ← selOfJson j
+    let g ← Driver.getGraph j "graph"
+    let s := crnSig sel g (← partitionOfJson j "partition") (← Driver.getNat j "node")
+    pure (Json.mkObj [("attrs", valsJson s.attrs), ("in", toJson s.inDeg), ("out", toJson s.outDeg),
+      ("counts", toJson s.counts), ("edges", Json.arr (s.edges.map valsJson).toArray)])
+  | "crn.ir_label" => some do
+    let sel ← selOfJson j
+    let g ← Driver.getGraph j "graph"
+    pure (labelJson (crnBuildLabel sel g (← natList j "perm")))
   | "crn.view" => some do
     let N ← netOfJson (← j.getObjVal? "net")
     let g := viewOf (← Driver.getBool j "bip") (← Driver.getBool j "stoich") N
